@@ -12,7 +12,9 @@ RULE = ('decks with 1–4 material cards, each used by 1–2 cells: Z from 1 to 
         '(Spec/Comp.lean) computes from the card tokens the expected nuclide list / NB_ATOM flag / fractions / '
         'concentrations and checks the COMPOSITION block of the written file; mixed-sign cards must be rejected; the '
         'element table is compared exhaustively with both Python enums. Distinct = distinct material cards.')
-NOT_PROVED = []
+NOT_PROVED = ["the theorems are about the composition model (compExpected, rescale); that the code's writer emits exactly the "
+              "model's lines is the correspondence (cards / rescale / table streams), not a theorem; floating-point rounding "
+              "of the sum is bounded by the harness (1e-12 relative), not proved"]
 ASSUMPTIONS = ['%.15e formatting and fsum are outside the model: concentrations are compared to 1e-12 relative']
 
 SUFF = ['', '', '.70c', '.80c', '.31c']
